@@ -88,13 +88,8 @@ func (w *Worker) sync() *core.VerifSnap {
 		}
 	}
 	for _, c := range s.Conns {
-		for outq(c.Fd) > 0 && time.Now().Before(deadline) {
-			// bytes written by the proxy not yet acknowledged by the peer's kernel
-			if c.Kind == "c" {
-				// a client that does not read can keep this non-zero forever: read now
-				w.drainClients()
-			}
-			time.Sleep(20 * time.Microsecond)
+		if pfd := w.peerFd(&c); pfd >= 0 {
+			delivered(c.Fd, pfd, deadline)
 		}
 	}
 	w.Cl.Pump()
@@ -157,27 +152,57 @@ func (w *Worker) iterate(wait time.Duration) (ran bool) {
 	s := w.sync()
 	post := w.fdNames(s)
 	_, efd := core.VerifPollFds()
-	var names []string
+	var names []SeenRec
 	for _, e := range seen {
 		switch {
 		case e.Fd == efd:
-			names = append(names, "W")
+			names = append(names, SeenRec{"W", ""})
 		case pre[e.Fd] != "":
-			names = append(names, pre[e.Fd])
+			names = append(names, SeenRec{pre[e.Fd][:1], pre[e.Fd][2:]})
 		case post[e.Fd] != "":
-			names = append(names, post[e.Fd])
+			names = append(names, SeenRec{post[e.Fd][:1], post[e.Fd][2:]})
 		default:
-			names = append(names, "L")
+			names = append(names, SeenRec{"L", ""})
 		}
 	}
 	w.Log.Add(Event{Ev: "iter", Seen: names, Snap: w.snapOf(s, post)})
 	return true
 }
 
+// peerFd returns the harness-side fd of a proxy connection (-1 if unknown).
+func (w *Worker) peerFd(c *core.VerifConnSnap) int {
+	fd := -1
+	switch c.Kind {
+	case "c":
+		for _, cli := range w.Clients {
+			if cli.Local == c.Remote && !cli.Closed {
+				_ = cli.rc.Control(func(f uintptr) { fd = int(f) })
+			}
+		}
+	case "s":
+		if nc := w.Cl.ConnByRemote(c.Local); nc != nil && !nc.Closed {
+			_ = nc.rc.Control(func(f uintptr) { fd = int(f) })
+		}
+	}
+	return fd
+}
+
+// flushOut waits until everything the harness wrote has arrived in the proxy's sockets.
+func (w *Worker) flushOut() {
+	s := core.VerifSnapshot(false)
+	deadline := time.Now().Add(time.Second)
+	for i := range s.Conns {
+		if pfd := w.peerFd(&s.Conns[i]); pfd >= 0 {
+			delivered(pfd, s.Conns[i].Fd, deadline)
+		}
+	}
+}
+
 // settle iterates until the poller has nothing more to report.
 func (w *Worker) settle(max int) {
 	for i := 0; i < max; i++ {
-		if !w.iterate(2 * time.Millisecond) {
+		w.flushOut()
+		if !w.iterate(200 * time.Microsecond) {
 			return
 		}
 	}
@@ -239,18 +264,6 @@ func (w *Worker) client(name, src string) *Client {
 	return c
 }
 
-func waitSent(c *Client) {
-	deadline := time.Now().Add(time.Second)
-	for time.Now().Before(deadline) {
-		q := 0
-		_ = c.rc.Control(func(fd uintptr) { q = outq(int(fd)) })
-		if q == 0 {
-			return
-		}
-		time.Sleep(20 * time.Microsecond)
-	}
-}
-
 func (w *Worker) apply(st *Stim) {
 	switch st.Op {
 	case "open":
@@ -276,7 +289,6 @@ func (w *Worker) apply(st *Stim) {
 		if err := c.Write(b); err != nil {
 			w.Log.Add(Event{Ev: "sendfail", C: c.Name, Txt: err.Error()})
 		}
-		waitSent(c)
 	case "cclose":
 		if c, ok := w.Clients[st.C]; ok && !c.Closed {
 			w.Log.Add(Event{Ev: "cclose", C: c.Name})
@@ -305,12 +317,10 @@ func (w *Worker) apply(st *Stim) {
 				w.Log.Add(Event{Ev: "skip", N: st.N, Txt: "answer: nothing pending"})
 			}
 		}
-		time.Sleep(30 * time.Microsecond)
 	case "bclose":
 		if w.Cl.CloseConns(st.N, true) == 0 {
 			w.Unreal++
 		}
-		time.Sleep(30 * time.Microsecond)
 	case "expire":
 		n := st.Count
 		if n < 1 {
@@ -336,7 +346,7 @@ func (w *Worker) apply(st *Stim) {
 				ev := Event{Ev: "expire"}
 				if t, ok := w.Cl.keyTok(keyOf[id]); ok {
 					ev.Fid = fmt.Sprintf("%s.%d.%s", t.C, t.I, t.S)
-					ev.C, ev.I = t.C, t.I
+					ev.C, ev.I, ev.Slots = t.C, t.I, []string{t.S}
 				}
 				w.Log.Add(ev)
 			}
@@ -401,11 +411,8 @@ func (w *Worker) RunScenario(sc *Scenario) {
 			w.settle(64)
 			continue
 		}
-		wait := 20 * time.Millisecond
-		if len(st.Stim) == 0 {
-			wait = 0
-		}
-		if !w.iterate(wait) && !w.Dead {
+		w.flushOut()
+		if !w.iterate(200*time.Microsecond) && !w.Dead {
 			w.Log.Add(Event{Ev: "noiter"}) // nothing was ready: an empty iteration changes nothing
 		}
 	}
@@ -435,7 +442,8 @@ func (w *Worker) reset() {
 		w.Cl.CloseConns(n.Name, true)
 	}
 	for i := 0; i < 64; i++ {
-		if !w.H.Readable(2 * time.Millisecond) {
+		w.flushOut()
+		if !w.H.Readable(300 * time.Microsecond) {
 			break
 		}
 		if _, ok := w.H.Step(); !ok {
